@@ -239,3 +239,82 @@ Lemma pump_cost_linear : forall (P : nat) (s : stream) (ops : list op) (idx : na
 Proof.
   intros P s ops idx Hok Hnth. pose proof (pump_cost_gen P s ops idx P (Nat.le_refl _) Hok Hnth) as H. lia.
 Qed.
+
+(* ------------------------------------------------------------------------------------------ *)
+(** * token-level nesting: levels of the model's trees (C03.Model.nlev) *)
+From EV Require Import C03.Syntax C03.Model.
+
+Fixpoint nest (w : tree -> tree) (n : nat) (e : tree) : tree :=
+  match n with 0 => e | S k => w (nest w k e) end.
+
+Definition w_paren (e : tree) : tree := N KParen [L TLParen; e; L TRParen].
+Definition w_unary (e : tree) : tree := N KUnary [L TMinus; e].
+Definition w_concat (e : tree) : tree := N KBinary [N KLiteral [L TInt]; L TConcat; e].
+Definition w_table (e : tree) : tree := N KTable [L TLBrace; N KFieldValue [e]; L TRBrace].
+Definition w_func (e : tree) : tree :=
+  N KClosure [L TFunction; N KParamList [L TLParen; L TRParen]; N KBlock [N KReturn [L TReturn; e]]; L TEnd].
+Definition w_plus (e : tree) : tree := N KBinary [e; L TPlus; N KLiteral [L TInt]].
+
+Lemma nlev_paren : forall e, nlev false (w_paren e) = S (nlev false e).
+Proof. intros e. cbn. lia. Qed.
+Lemma nlev_unary : forall e, nlev false (w_unary e) = S (nlev false e).
+Proof. intros e. cbn. lia. Qed.
+Lemma nlev_concat : forall e, nlev false (w_concat e) = S (nlev false e).
+Proof. intros e. cbn. lia. Qed.
+Lemma nlev_table : forall e, nlev false (w_table e) = S (nlev false e).
+Proof. intros e. cbn. lia. Qed.
+Lemma nlev_func : forall e, nlev false (w_func e) = S (S (nlev false e)).
+Proof. intros e. cbn. lia. Qed.
+
+Lemma depth_eq_nesting_gen : forall (w : tree -> tree) (k : nat),
+  (forall e, nlev false (w e) = k + nlev false e) ->
+  forall n e, nlev false (nest w n e) = k * n + nlev false e.
+Proof.
+  intros w k Hw. induction n as [|n IH]; intros e; cbn [nest]; [lia|]. rewrite Hw, IH. lia.
+Qed.
+
+(** a left-associative chain adds NO level (the parser loops) but one level of tree per link *)
+Lemma nlev_plus_inside : forall e, nlev true (w_plus e) = Nat.max (nlev true e) 1.
+Proof. intros e. reflexivity. Qed.
+
+Lemma height_plus : forall e, height (w_plus e) = S (Nat.max (height e) 2).
+Proof. intros e. cbn. lia. Qed.
+
+Lemma depth_eq_nesting : forall (n : nat) (e : tree),
+  nlev false (nest w_paren n e) = 1 * n + nlev false e /\
+  nlev false (nest w_unary n e) = 1 * n + nlev false e /\
+  nlev false (nest w_concat n e) = 1 * n + nlev false e /\
+  nlev false (nest w_table n e) = 1 * n + nlev false e /\
+  nlev false (nest w_func n e) = 2 * n + nlev false e.
+Proof.
+  intros n e. repeat split.
+  - exact (depth_eq_nesting_gen w_paren 1 nlev_paren n e).
+  - exact (depth_eq_nesting_gen w_unary 1 nlev_unary n e).
+  - exact (depth_eq_nesting_gen w_concat 1 nlev_concat n e).
+  - exact (depth_eq_nesting_gen w_table 1 nlev_table n e).
+  - exact (depth_eq_nesting_gen w_func 2 nlev_func n e).
+Qed.
+
+From EV Require C03.Proofs C03.Corr C03.Props Gen.C02_Graph.
+
+Lemma tree_height_unbounded : forall B : nat, exists (ts : list tok) (t : tree),
+  (exists n, forall fuel, n <= fuel -> C03.Corr.gen_expr Lua54 fuel ts = Ok t []) /\
+  height t > B /\ List.length ts = 2 * B + 1.
+Proof.
+  intros B. exists (C03.Proofs.plus_toks B), (C03.Proofs.plus_tree B). split; [|split].
+  - apply (C03.Props.expr_complete Lua54 2); [apply C03.Proofs.plus_chain_E|].
+    unfold Gen.C02_Graph.LIMIT. lia.
+  - rewrite C03.Proofs.plus_tree_height. lia.
+  - apply C03.Proofs.plus_toks_length.
+Qed.
+
+Lemma graph_example :
+  1 < Gen.C02_Graph.LIMIT /\ 100 < List.length Gen.C02_Graph.funs /\ 4 = List.length (filter fguard Gen.C02_Graph.funs)
+  /\ K_of Gen.C02_Graph.funs <= 64
+  /\ respects 2 (fun f => Nat.eqb f 0) (fun _ _ => true) 0 (CNode 0 [CNode 1 [CNode 0 [CNode 1 [CNode 0 []]]]]) = true
+  /\ respects 2 (fun f => Nat.eqb f 0) (fun _ _ => true) 0 (CNode 0 [CNode 1 [CNode 0 [CNode 1 [CNode 0 [CNode 1 []]]]]]) = false
+  /\ EV.C02.Model.chunk 5 {| len := 3; skip := fun _ => 0 |} (fun k _ => if Nat.eqb k 1 then [Bump; Bump] else [Mark; PushError]) 0 0 = Some (2, 3).
+Proof.
+  split; [unfold Gen.C02_Graph.LIMIT; lia|]. split; [vm_compute; lia|]. split; [vm_compute; reflexivity|].
+  split; [vm_compute; lia|]. vm_compute. repeat split; reflexivity.
+Qed.
